@@ -61,8 +61,15 @@ impl St {
 }
 pub struct RefTok { pub n: usize }
 impl RefTok { pub fn new(n: usize) -> (r: RefTok) ensures r.n == n { RefTok { n } } }
+#[derive(Copy, Clone, PartialEq, Eq)]
 pub struct FlagTok { pub bits: u8 }
-impl FlagTok { pub fn empty() -> (r: FlagTok) ensures r.bits == 0 { FlagTok { bits: 0 } } }
+/// bitflags `MemoryFlags` (ON_DISK = 0b01, MMAP = 0b10)
+impl FlagTok {
+  pub fn empty() -> (r: FlagTok) ensures r.bits == 0 { FlagTok { bits: 0 } }
+  pub fn contains(&self, other: FlagTok) -> (r: bool) ensures r == (self.bits & other.bits == other.bits) { self.bits & other.bits == other.bits }
+}
+pub const ON_DISK: FlagTok = FlagTok { bits: 1 };
+pub type MemoryFlags = FlagTok;
 pub struct BackendTok {}
 impl BackendTok { pub fn vec(v: AlignedVec) -> BackendTok { BackendTok {} } }
 
@@ -172,6 +179,51 @@ pub struct Memory {
 }
 
 impl Memory {
+//@@fn file=memory.rs scope="impl<R: RefCounter, PR: PathRefCounter, H: Header> Memory<R, PR, H> {" name=freelist rename=m_freelist xlate=plain props=C16
+//@contract
+  ensures r == self.freelist, // [C16]
+//@@end
+//@@fn file=memory.rs scope="impl<R: RefCounter, PR: PathRefCounter, H: Header> Memory<R, PR, H> {" name=magic_version rename=m_magic_version xlate=plain props=C16
+//@contract
+  ensures r == self.magic_version, // [C16]
+//@@end
+//@@fn file=memory.rs scope="impl<R: RefCounter, PR: PathRefCounter, H: Header> Memory<R, PR, H> {" name=version rename=m_version xlate=plain props=C16
+//@contract
+  ensures r == self.version, // [C16]
+//@@end
+//@@fn file=memory.rs scope="impl<R: RefCounter, PR: PathRefCounter, H: Header> Memory<R, PR, H> {" name=flag rename=m_flag xlate=plain props=C16
+//@contract
+  ensures r == self.flag, // [C16]
+//@@end
+//@@fn file=memory.rs scope="impl<R: RefCounter, PR: PathRefCounter, H: Header> Memory<R, PR, H> {" name=data_offset rename=m_data_offset xlate=plain props=C16
+//@contract
+  ensures r == self.data_offset, // [C16]
+//@@end
+//@@fn file=memory.rs scope="impl<R: RefCounter, PR: PathRefCounter, H: Header> Memory<R, PR, H> {" name=reserved rename=m_reserved xlate=plain props=C16
+//@contract
+  ensures r == self.reserved, // [C16]
+//@@end
+//@@fn file=memory.rs scope="impl<R: RefCounter, PR: PathRefCounter, H: Header> Memory<R, PR, H> {" name=maximum_retries rename=m_maximum_retries xlate=plain props=C16
+//@contract
+  ensures r == self.max_retries, // [C16]
+//@@end
+//@@fn file=memory.rs scope="impl<R: RefCounter, PR: PathRefCounter, H: Header> Memory<R, PR, H> {" name=read_only rename=m_read_only xlate=plain props=C16
+//@contract
+  ensures r == self.read_only, // [C16]
+//@@end
+//@@fn file=memory.rs scope="impl<R: RefCounter, PR: PathRefCounter, H: Header> Memory<R, PR, H> {" name=cap rename=m_cap xlate=plain props=C16
+//@contract
+  ensures r == self.cap, // [C16]
+//@@end
+//@@fn file=memory.rs scope="impl<R: RefCounter, PR: PathRefCounter, H: Header> Memory<R, PR, H> {" name=as_mut_ptr rename=m_as_mut_ptr xlate=plain props=C16
+//@contract
+  ensures r == self.ptr, // [C16]
+//@@end
+//@@fn file=memory.rs scope="impl<R: RefCounter, PR: PathRefCounter, H: Header> Memory<R, PR, H> {" name=unify rename=m_unify xlate=plain props=C16
+//@subst /MemoryFlags::ON_DISK/ => ON_DISK
+//@contract
+  ensures r == (self.unify || (self.flag.bits & 1u8 == 1u8)), // [C16] file-backed arenas always use the unified layout
+//@@end
 //@@fn file=memory.rs scope="impl<R: RefCounter, PR: PathRefCounter, H: Header> Memory<R, PR, H> {" name=alloc norm=1 xlate=plain st=mut props=C16,C09
 //@subst /AlignedVec::new::<H>\((.+?), (.+?)\)/ => AlignedVec::new_shim(st, \1, \2)
 //@subst /let ptr = vec\.as_mut_ptr\(\);\s*ptr::write_bytes\(ptr, 0, vec\.cap\);/ => let ptr = vec.as_mut_ptr(); st.zero_all(vec.cap);
@@ -201,6 +253,64 @@ impl Memory {
        && m.header_ptr == Either::<u32, Header>::Left(spec_header_offset::<Header>(opts.reserved as int, true) as u32)), // [C16]
     r matches Ok(m) ==> (!opts.unify ==> final(st).sanity_at@ is None && final(st).header_at@ is None
        && m.header_ptr == Either::<u32, Header>::Right(Header { allocated: (opts.reserved + 1) as u32, min_segment_size: opts.minimum_segment_size, discarded: 0 })), // [C16]
+//@@end
+}
+
+// ---- From<Memory> for Arena: the arena handle caches the Memory's fields (both flavours) --------------------------------
+pub struct InnerTok {}
+/// `NonNull::new_unchecked(Box::into_raw(Box::new(memory)) as _)`
+pub fn box_memory(m: Memory) -> InnerTok { InnerTok {} }
+pub fn page_size_static() -> u32 { 4096 }
+pub struct Arena {
+  pub ptr: *mut u8, pub cap: u32, pub inner: InnerTok, pub reserved: usize, pub data_offset: u32, pub flag: FlagTok,
+  pub max_retries: u8, pub unify: bool, pub magic_version: u16, pub version: u16, pub ro: bool, pub freelist: Freelist, pub page_size: u32,
+}
+impl Arena {
+//@@fn file=unsync.rs scope="impl From<Memory> for Arena {" name=from rename=from_unsync norm=1 xlate=plain props=C16
+//@subst /memory\.(freelist|magic_version|version|flag|data_offset|reserved|maximum_retries|read_only|cap|as_mut_ptr|unify)\(\)/ => memory.m_\1()
+//@subst /unsafe \{\s*NonNull::new_unchecked\(Box::into_raw\(Box::new\(memory\)\) as _\)\s*\}/ => box_memory(memory)
+//@subst /\*PAGE_SIZE/ => page_size_static()
+//@contract
+  requires memory.data_offset <= u32::MAX as usize,
+  ensures
+    r.reserved == memory.reserved && r.freelist == memory.freelist && r.cap == memory.cap && r.flag == memory.flag
+      && r.unify == (memory.unify || (memory.flag.bits & 1u8 == 1u8)) && r.magic_version == memory.magic_version && r.version == memory.version
+      && r.ptr == memory.ptr && r.ro == memory.read_only && r.max_retries == memory.max_retries && r.data_offset as usize == memory.data_offset, // [C16]
+//@@end
+//@@fn file=sync.rs scope="impl From<Memory> for Arena {" name=from rename=from_sync norm=1 xlate=plain props=C16
+//@subst /memory\.(freelist|magic_version|version|flag|data_offset|reserved|maximum_retries|read_only|cap|as_mut_ptr|unify)\(\)/ => memory.m_\1()
+//@subst /unsafe \{\s*NonNull::new_unchecked\(Box::into_raw\(Box::new\(memory\)\) as _\)\s*\}/ => box_memory(memory)
+//@subst /\*PAGE_SIZE/ => page_size_static()
+//@contract
+  requires memory.data_offset <= u32::MAX as usize,
+  ensures
+    r.reserved == memory.reserved && r.freelist == memory.freelist && r.cap == memory.cap && r.flag == memory.flag
+      && r.unify == (memory.unify || (memory.flag.bits & 1u8 == 1u8)) && r.magic_version == memory.magic_version && r.version == memory.version
+      && r.ptr == memory.ptr && r.ro == memory.read_only && r.max_retries == memory.max_retries && r.data_offset as usize == memory.data_offset, // [C16]
+//@@end
+//@@fn file=unsync.rs scope="impl Allocator for Arena {" name=reserved_bytes xlate=plain props=C16
+//@contract
+  ensures r == self.reserved, // [C16]
+//@@end
+//@@fn file=unsync.rs scope="impl Allocator for Arena {" name=magic_version xlate=plain props=C16
+//@contract
+  ensures r == self.magic_version, // [C16]
+//@@end
+//@@fn file=unsync.rs scope="impl Allocator for Arena {" name=version xlate=plain props=C16
+//@contract
+  ensures r == self.version, // [C16]
+//@@end
+//@@fn file=unsync.rs scope="impl Allocator for Arena {" name=data_offset xlate=plain props=C16
+//@contract
+  ensures r == self.data_offset as usize, // [C16]
+//@@end
+//@@fn file=unsync.rs scope="impl Allocator for Arena {" name=page_size xlate=plain props=C16
+//@contract
+  ensures r == self.page_size as usize, // [C16]
+//@@end
+//@@fn file=sync.rs scope="impl Allocator for Arena {" name=read_only xlate=plain props=C16,C09
+//@contract
+  ensures r == self.ro, // [C16 C09]
 //@@end
 }
 
